@@ -8,6 +8,7 @@ package main
 // enumeration over all vehicles, allowed orders and positions (bestMoveOracle, as in the hist stream).
 
 import (
+	"strings"
 	"context"
 	"fmt"
 	"math/rand"
@@ -33,6 +34,8 @@ type apibmCase struct {
 	Latest   []int64        `json:"latest"`         // per stop, seconds after the base time; 0 = none
 	Hard     bool           `json:"hard"`
 	Travel   [][3]int       `json:"travel,omitempty"` // (from stop, to stop, seconds) overrides of the default
+	Triple   bool           `json:"triple,omitempty"` // stops 0, 1, 2 form one unit (0 before 1, 2 free) instead of the pair
+	Disallow [][2]int       `json:"disallow,omitempty"` // successor constraint: (stop, stop that must not come directly behind it); -1 = the first vehicle's end
 	Ops      []int          `json:"ops"`
 }
 
@@ -60,6 +63,18 @@ func genAPIBMCase(rng *rand.Rand) apibmCase {
 	}
 	for k := rng.Intn(5); k > 0; k-- {
 		c.Travel = append(c.Travel, [3]int{rng.Intn(c.Stops), rng.Intn(c.Stops), 60 * (1 + rng.Intn(30))})
+	}
+	if c.Pair && c.Stops >= 4 && rng.Intn(2) == 0 {
+		c.Triple = true
+	}
+	if rng.Intn(3) == 0 {
+		// disallowed successors: the position generator prunes by them stop by stop
+		for k := 1 + rng.Intn(4); k > 0; k-- {
+			a, b := rng.Intn(c.Stops), rng.Intn(c.Stops+1)-1
+			if a != b {
+				c.Disallow = append(c.Disallow, [2]int{a, b})
+			}
+		}
 	}
 	for k := 0; k < 14; k++ {
 		c.Ops = append(c.Ops, rng.Intn(1000))
@@ -107,10 +122,15 @@ func buildAPIBM(c *apibmCase) (nextroute.Model, error) {
 		if e := dag.AddArc(stops[0], stops[1]); e != nil {
 			return nil, e
 		}
-		if _, e := model.NewPlanMultipleStops(nextroute.ModelStops{stops[0], stops[1]}, dag); e != nil {
+		unit := nextroute.ModelStops{stops[0], stops[1]}
+		start = 2
+		if c.Triple && c.Stops >= 4 {
+			unit = append(unit, stops[2])
+			start = 3
+		}
+		if _, e := model.NewPlanMultipleStops(unit, dag); e != nil {
 			return nil, e
 		}
-		start = 2
 	}
 	for i := start; i < c.Stops; i++ {
 		if _, e := model.NewPlanSingleStop(stops[i]); e != nil {
@@ -132,6 +152,24 @@ func buildAPIBM(c *apibmCase) (nextroute.Model, error) {
 			return nil, e
 		}
 		ve.SetID(fmt.Sprintf("v%d", i))
+	}
+	if len(c.Disallow) > 0 {
+		sc, e := nextroute.NewSuccessorConstraint()
+		if e != nil {
+			return nil, e
+		}
+		for _, d := range c.Disallow {
+			to := model.Vehicles()[0].Last()
+			if d[1] >= 0 {
+				to = stops[d[1]]
+			}
+			if e := sc.DisallowSuccessors(stops[d[0]], nextroute.ModelStops{to}); e != nil {
+				return nil, e
+			}
+		}
+		if e := model.AddConstraint(sc); e != nil {
+			return nil, e
+		}
 	}
 	lse := nextroute.NewStopTimeExpression("latestStart", model.MaxTime())
 	for i, l := range c.Latest {
@@ -208,7 +246,7 @@ func runAPIBMCase(o *Out, c *apibmCase) {
 			}
 		}
 	}
-	o.Distinct(fmt.Sprintf("types=%d vehicles=%d same-type-other-shift=%v hard=%v pair=%v", c.Types, len(c.Vehicles), sameTypeDifferentStart, c.Hard, c.Pair))
+	o.Distinct(fmt.Sprintf("types=%d vehicles=%d same-type-other-shift=%v hard=%v pair=%v triple=%v disallow=%v", c.Types, len(c.Vehicles), sameTypeDifferentStart, c.Hard, c.Pair, c.Triple, len(c.Disallow) > 0))
 	queries := 0
 	for _, op := range c.Ops {
 		un := sol.UnPlannedPlanUnits().SolutionPlanUnits()
@@ -232,6 +270,9 @@ func runAPIBMCase(o *Out, c *apibmCase) {
 		}
 		mv := sol.BestMove(context.Background(), u)
 		bestMoveOracle(o, c, sol, su, mv, "api-shared-type")
+		if len(c.Disallow) > 0 {
+			genDisCorrespondence(o, c, sol, su, op)
+		}
 		queries++
 		o.Count(fmt.Sprintf("apibm:bestmove-executable=%v", mv.IsExecutable()))
 		if mv.IsExecutable() && op%3 != 0 {
@@ -250,4 +291,58 @@ func runAPIBMCase(o *Out, c *apibmCase) {
 	if queries > 0 {
 		o.Sample(c)
 	}
+}
+
+// genDisCorrespondence: the position generator of the real code (public test entry point) under disallowed successors,
+// on one vehicle and one allowed order of the unit, next to NR.Gen.genDis (`gend` lines).
+func genDisCorrespondence(o *Out, c *apibmCase, sol nextroute.Solution, su nextroute.SolutionPlanStopsUnit, op int) {
+	orders := allowedOrders(su)
+	if len(orders) == 0 {
+		return
+	}
+	order := orders[op%len(orders)]
+	vs := sol.Vehicles()
+	v := vs[(op/7)%len(vs)]
+	target := v.SolutionStops()
+	var combos []string
+	nextroute.SolutionMoveStopsGeneratorTest(v, su, func(mv nextroute.SolutionMoveStops) {
+		sps := mv.StopPositions()
+		gaps := make([]int, len(sps))
+		for i := len(sps) - 1; i >= 0; i-- {
+			if sps[i].Next().IsPlanned() {
+				gaps[i] = sps[i].Next().Position()
+			} else if i+1 < len(sps) {
+				gaps[i] = gaps[i+1]
+			}
+		}
+		ss := make([]string, len(gaps))
+		for i, g := range gaps {
+			ss[i] = fmt.Sprint(g)
+		}
+		combos = append(combos, strings.Join(ss, "."))
+	}, nextroute.SolutionStops(order), nextroute.NewPreAllocatedMoveContainer(su), func() bool { return false })
+	var src, tgt []int
+	for _, st := range order {
+		src = append(src, st.ModelStop().Index())
+	}
+	for _, st := range target {
+		tgt = append(tgt, st.ModelStop().Index())
+	}
+	// the disallowed pairs as model stop indices (the end of the FIRST vehicle for -1)
+	stops := sol.Model().Stops()
+	var ps []string
+	for _, d := range c.Disallow {
+		to := sol.Model().Vehicles()[0].Last().Index()
+		if d[1] >= 0 {
+			to = stops[d[1]].Index()
+		}
+		ps = append(ps, fmt.Sprintf("%d:%d", stops[d[0]].Index(), to))
+	}
+	ans := "-"
+	if len(combos) > 0 {
+		ans = strings.Join(combos, ";")
+	}
+	o.Op(fmt.Sprintf("gend %s %s %s", csvI(src), csvI(tgt), strings.Join(ps, ",")), "gend "+ans)
+	o.Count("gend-correspondence")
+	o.Count(fmt.Sprintf("gend-correspondence:unit-stops=%d", len(src)))
 }
